@@ -1,1 +1,4 @@
+pub mod codec;
+pub mod raw;
+pub mod rawpeer;
 pub mod sim;
